@@ -14,7 +14,11 @@ Inductive case :=
 (* raw bytes to a handler (0 unicast, 1 broadcast, 2 gossip) *)
 | CRaw (which : N) (raw : bytes) (class : N) (alloc : N)
 (* a live broker child under attack *)
-| CLive (attacks : N) (ready alive canary_ok conns_back : bool) (max_sys : N) (last_attack : bytes).
+| CLive (attacks : N) (ready alive canary_ok conns_back : bool) (max_sys : N) (last_attack : bytes)
+(* a subscriber that never reads: did the broker give the connection up, was the publisher to its channel served *)
+| CStall (gave_up publisher_served : bool)
+(* answers to a survey arriving after it ended (peers, answers in time, answers afterwards): were they handled *)
+| CSurvey (peers early late : N) (handled : bool).
 
 Definition msg_eqb (a b : msg) : bool :=
   bytes_eqb (m_id a) (m_id b) && bytes_eqb (m_chan a) (m_chan b) && bytes_eqb (m_payload a) (m_payload b)
@@ -32,6 +36,8 @@ Definition snappy_announced (raw : bytes) : N :=
 
 Definition check (c : case) : N :=
   match c with
+  | CStall gave_up served => bit (gave_up && served) 2
+  | CSurvey _ _ _ handled => bit handled 2
   | CStream s max served ending alloc =>
     let '(ms, e) := process (S (length s)) s max [] in
     bit (list_eqb packet_eqb ms served && (pend_class e =? ending)) 1
